@@ -81,3 +81,13 @@ func init() {
 		Assumes:    []string{"fmt recovers panics raised by String()/Error() methods it calls", "positions stored in parse-tree nodes are non-negative"},
 	})
 }
+
+func init() {
+	register(&propSpec{
+		ID:    "C19",
+		Rules: []func(*Ctx){ruleR19a, ruleR19b, ruleR19c, ruleR19d},
+		Explain: "R19a: every parser is created with the input's name; parse failures are raised only through the positioned constructor (bare panics are internal markers); message prefix and File/Line/Col come from the same expressions and line/column from one offset; R19b: unexpected(token) positions every raise at that token's own offset and expect passes the token it read; R19c: errFromNode looks up file, line and column with one template name and the state's current node, errRecover only produces such errors, and a callee's failure propagates to the caller's state; R19d: a nested parse is given its position base.",
+		NotDecided: "the arithmetic of lineNumber/columnNumber (that the numbers are right for a given offset).",
+		Assumes:    []string{"token offsets recorded by the scanner are offsets of the construct concerned"},
+	})
+}
